@@ -175,7 +175,14 @@ func pgpKey(info Info, data []byte) (Info, error) {
 
 	for _, s := range e.Subkeys {
 		attrs := gpgPublicKeyAttributes(s.PublicKey)
-		attrs = append(attrs, gpgSignatureAttributes(s.Sig, s.PublicKey.CreationTime)...)
+		for _, a := range gpgSignatureAttributes(s.Sig, s.PublicKey.CreationTime) {
+			if a.Name == "Created" {
+				// the subkey's own creation time (what gpg --list-keys shows), not the
+				// date of its binding signature, which is renewed e.g. when the expiry changes
+				a.Value = s.PublicKey.CreationTime.UTC().Format("2006-01-02")
+			}
+			attrs = append(attrs, a)
+		}
 		info.Children = append(info.Children, Info{
 			Description: "GPG/PGP subkey",
 			Attributes:  attrs,
